@@ -125,6 +125,19 @@ Theorem stream_extent :
 Proof. exact stream_extent_correct. Qed.
 Print Assumptions stream_extent.
 
+(* with a correct /Length the data are exactly the declared bytes, whatever they contain (an
+   end-of-line at their end, lines that begin with endstream) and whatever white space - an
+   end-of-line, several bytes, or NONE: the end-of-line before endstream is only recommended
+   (7.3.8.1) - stands between them and the keyword.  In particular /Length 0 with
+   `stream EOL endstream` is an empty stream. *)
+Theorem stream_extent_declared :
+  forall body e0 ws rest,
+    eol_before_data e0 -> forallb is_space ws = true ->
+    Extent.stream_extent (e0 ++ body ++ ws ++ kw_endstream ++ rest) (Some (Z.of_nat (length body)))
+    = Ok (length e0, length body).
+Proof. exact stream_extent_declared_correct. Qed.
+Print Assumptions stream_extent_declared.
+
 (* ---------- read_render: the reader on BYTES opened on the rendered file ---------- *)
 (* open_bytes is NewReader up to the xref table and trailer, on bytes: find %PDF-, the last
    startxref and its number, then the /Prev loop with every section parsed from the file
@@ -258,3 +271,9 @@ Example literal_string_rt_ex :
   fst (render_lit_bytes s c) = [102; 13; 115; 10; 92; 13; 116]%N /\
   read_lit O (fst (render_lit_bytes s c) ++ [41]%N) = Some (s, []).
 Proof. vm_compute. repeat split. Qed.
+
+(* `stream LF endstream` with /Length 0 followed by another stream: the data are empty *)
+Example stream_extent_declared_ex :
+  Extent.stream_extent ([10]%N ++ [] ++ [] ++ kw_endstream ++ [10; 120; 10]%N ++ kw_endstream) (Some 0%Z) = Ok (1%nat, 0%nat)
+  /\ Extent.stream_extent ([10]%N ++ [] ++ [] ++ kw_endstream ++ [10; 120; 10]%N ++ kw_endstream) None = Ok (1%nat, 11%nat).
+Proof. split; vm_compute; reflexivity. Qed.
